@@ -391,6 +391,8 @@ def run_unit(unit, tier, scratch, keep=False):
         if tier == "thorough" and unit.get("unwind_thorough"):
             uw = unit["unwind_thorough"]
         flags += ["--unwind", str(uw), "--unwinding-assertions"]
+        for u in unit.get("cbmc_unwindset", []):
+            flags += ["--unwindset", u]
     flags += ["--object-bits", str(unit.get("object_bits", 12))]
     if not (enforce or replace or unit.get("loop_contracts")):
         flags += ["--drop-unused-functions"]
